@@ -37,6 +37,7 @@ RX_MENU = {
     "l2": (r"[a-d]{2}", "l", "abcd", 2, 2),
     "x*": (r"x*", "x", "x", 0, 3),
     "w": (r"[e-h][i-k]?", "w", None, 1, 2),
+    "c13": (r"[1-3]", "c", "123", 1, 1),
 }
 RX_MENU_BYTES = {
     "B1": (rb"[\x00-\x1f]", "B", bytes(range(0, 0x20)), 1, 1),
@@ -68,7 +69,7 @@ class Gram:
         if k == "rx":
             return re.fullmatch(node[1], node[1][:0]) is not None
         if k == "nt":
-            if node[1] in seen:
+            if node[1] in seen or node[1] not in self.rules:
                 return False
             return self.nullable(self.rules[node[1]], seen + (node[1],))
         if k == "cat":
@@ -93,7 +94,7 @@ class Gram:
         if k == "rx":
             return frozenset([node[2]])
         if k == "nt":
-            if node[1] in seen:
+            if node[1] in seen or node[1] not in self.rules:
                 return frozenset()
             return self.first_last(self.rules[node[1]], which, seen + (node[1],))
         if k == "cat":
@@ -280,7 +281,20 @@ def _body_ok_for_iteration(ch, g: Gram, cfg, body):
     return body
 
 
+def _lenrep(ch, g: Gram, cfg, avail, depth):
+    """<cK> '=' body{int(<cK>)}: a computed repetition with its own count field."""
+    k = len([n for n in g.rules if n.startswith("c")]) + len(g.meta.setdefault("pending_counts", []))
+    cname = "c%d" % (k + 1)
+    g.meta["pending_counts"].append(cname)
+    body = _body_ok_for_iteration(ch, g, cfg, _atom(ch, g, cfg, avail, depth + 1))
+    if body[0] in ("star", "plus", "opt", "rep", "crep"):
+        body = ("cat", (body, _sep(ch, g)))
+    return ("cat", (("nt", cname), ("lit", "="), ("crep", body, "int(<%s>)" % cname), _sep(ch, g)))
+
+
 def _item(ch, g: Gram, cfg, avail, depth):
+    if g.mode == "text" and cfg.get("computed_reps") and depth == 0 and ch.coin(0.12, "spec", "lenrep"):
+        return _lenrep(ch, g, cfg, avail, depth)
     a = _atom(ch, g, cfg, avail, depth)
     if not cfg.get("repetitions", True):
         return a
@@ -349,7 +363,7 @@ def gen_grammar(ch, cfg: dict) -> Gram:
             node = _bits_rule(ch, g, cfg, built)
         else:
             node = _expr(ch, g, cfg, list(built), 0)
-            if cfg.get("recursion", True) and ch.coin(0.15, "spec", "recursive") and not g.nullable(node):
+            if cfg.get("recursion", True) and ch.coin(cfg.get("recursion_rate", 0.15), "spec", "recursive") and not g.nullable(node):
                 # guarded right/centre recursion: base | LIT <self> [LIT]
                 open_ = _lit(ch, g, cfg)
                 g.rules[name] = node  # temporarily, for analysis
@@ -357,19 +371,22 @@ def gen_grammar(ch, cfg: dict) -> Gram:
                 node = ("alt", (node, ("cat", (open_, ("nt", name)) + tail)))
         g.rules[name] = node
         built.append(name)
+    for cname in g.meta.pop("pending_counts", []):
+        g.rules[cname] = ("rx", RX_MENU["c13"][0], "c")
     # reorder: start first
     g.rules = {n: g.rules[n] for n in (["start"] + [x for x in g.rules if x != "start"])}
     # reachability: make start reference every otherwise unreachable rule
-    reach = reachable(g)
-    missing = [n for n in g.rules if n not in reach]
-    if missing:
-        extra = []
-        for n in missing:
-            extra.append(_sep(ch, g) if mode != "bits" else ("lit", b"\xff"))
-            extra.append(("nt", n) if n != "bit" else ("rep", ("nt", "bit"), 8, 8))
+    while True:
+        reach = reachable(g)
+        missing = [n for n in g.rules if n not in reach]
+        if not missing:
+            break
+        n = missing[0]
         st = g.rules["start"]
         items = list(st[1]) if st[0] == "cat" else [st]
-        g.rules["start"] = ("cat", tuple(items + extra))
+        items.append(_sep(ch, g) if mode != "bits" else ("lit", b"\xff"))
+        items.append(("nt", n) if n != "bit" else ("rep", ("nt", "bit"), 8, 8))
+        g.rules["start"] = ("cat", tuple(items))
     return g
 
 
@@ -485,8 +502,15 @@ def sample(g: Gram, ch, start: Optional[str] = None, budget: int = 30, stream: s
             elif k == "rep":
                 lo, hi = node[2], (node[3] if node[3] is not None else node[2] + 2)
             else:
-                lo, hi = 0, 3
-            n = lo if state["budget"] <= 0 else ch.rng_range(lo, hi, stream, "reps")
+                # computed repetition {int(<cnt>)}: the count field was expanded just before
+                m_ = re.search(r"<([A-Za-z0-9_]+)>", node[2])
+                cnt = None
+                for prev in reversed(out):
+                    if prev[0] == "N" and m_ and prev[1] == m_.group(1):
+                        cnt = int("".join(str(x) for x in leaves(prev)))
+                        break
+                lo = hi = cnt if cnt is not None else 1
+            n = lo if (state["budget"] <= 0 or lo == hi) else ch.rng_range(lo, hi, stream, "reps")
             if n == 0:
                 state["empties"] += 1
             for _ in range(n):
